@@ -17,6 +17,19 @@ from vf.models.base import Model
 LAST = 2
 
 
+
+def _gc(n, p):
+    def f():
+        from jumanji.environments import GraphColoring
+        from jumanji.environments.logic.graph_coloring.generator import RandomGenerator
+
+        return GraphColoring(generator=RandomGenerator(num_nodes=n, edge_probability=p))
+    return f
+
+
+# extra generator configurations for C10: minimum size with a random edge, sparse / dense larger graphs
+EXTRA_INSTANCE_CONFIGS = {"x_n2p5": _gc(2, 0.5), "x_n50p1": _gc(50, 0.1), "x_n13p9": _gc(13, 0.9)}
+
 class M(Model):
     ENV = "GraphColoring"
 
